@@ -1741,9 +1741,10 @@ impl Block {
                                             let mut input3 = slip3.clone();
 
                                             //
-                                            // for fee accounting of payload
+                                            // the input keeps the amount it has in the ledger
+                                            // (its utxoset key is derived from it); the payout
+                                            // and the fee show up in the output only
                                             //
-                                            input2.amount = atr_payout_for_slip;
 
                                             //
                                             // Prepare output slips, only payload slip carries ATR amount
@@ -1758,13 +1759,15 @@ impl Block {
                                             //
                                             // Create a special rebroadcast for triple NFT group
                                             //
-                                            let rebroadcast_tx =
+                                            let mut rebroadcast_tx =
                                                 Transaction::create_rebroadcast_bound_transaction(
                                                     transaction,
                                                     output1,
                                                     input2.clone(),
                                                     output3,
                                                 );
+                                            rebroadcast_tx.to[1].amount = output2.amount;
+                                            rebroadcast_tx.generate_total_fees(0, 0);
 
                                             cv.total_payout_atr +=
                                                 surplus_payout_to_subtract_from_treasury;
@@ -1822,8 +1825,9 @@ impl Block {
                                             // calculated correctly when the TX is
                                             // examined....
                                             //
-                                            let mut from_slip = output.clone();
-                                            from_slip.amount = atr_payout_for_slip;
+                                            // the input is the output as the ledger holds it: a
+                                            // changed amount would be a different utxoset key
+                                            let from_slip = output.clone();
 
                                             //
                                             // track payouts and fees
@@ -1900,8 +1904,13 @@ impl Block {
                         // from flushing the treasury out to their own wallet by massively increasing the
                         // amount of SAITO being rebroadcast in a single block.
                         //
-                        if cv.total_payout_atr > (self.treasury as f64 * 0.05) as u64 {
-                            let max_total_payout = (self.treasury as f64 * 0.05) as u64;
+                        //
+                        // the reference is the treasury of the previous block: Block::create
+                        // calls this function before it has filled in block.treasury, while
+                        // Block::validate sees the finished header.
+                        //
+                        if cv.total_payout_atr > (previous_block_treasury as f64 * 0.05) as u64 {
+                            let max_total_payout = (previous_block_treasury as f64 * 0.05) as u64;
                             let unadjusted_total_nolan = cv.total_rebroadcast_nolan;
                             let adjusted_atr_payout_multiplier =
                                 max_total_payout / unadjusted_total_nolan;
@@ -1966,7 +1975,21 @@ impl Block {
                                 }
                             }
 
-                            cv.total_fees_atr = 0;
+                            // the rebroadcast fee is waived; what was collected from outputs
+                            // too small to be rebroadcast stays collected
+                            cv.total_fees_atr =
+                                cv.total_fees_paid_by_nonrebroadcast_atr_transactions;
+                            cv.total_fees_cumulative = cv.total_fees_new;
+
+                            // the hash commits to the transactions as they are returned
+                            cv.rebroadcast_hash = [0; 32];
+                            for rebroadcast_tx in &mut cv.rebroadcasts {
+                                rebroadcast_tx.generate_total_fees(0, 0);
+                                let mut vbytes: Vec<u8> = vec![];
+                                vbytes.extend(&cv.rebroadcast_hash);
+                                vbytes.extend(&rebroadcast_tx.serialize_for_signature());
+                                cv.rebroadcast_hash = hash(&vbytes);
+                            }
                         }
                     } else {
                         error!(
